@@ -358,6 +358,7 @@ fn replay_subsets(v: &serde_json::Value) -> Result<(), String> {
 
 pub fn subs() -> Vec<Box<dyn Sub>> {
     vec![
+        Box::new(super::fuzzsub::FuzzSub { target: "fuzz_build", name: "fuzz-build", runs: 20_000_000, quick_runs: 600_000, max_len: 512 }),
         Box::new(PropSub::<Case> {
             name: "histories",
             rule: "sequences of 0..=30 builder calls over the 22 slots with generated contents (string lengths 0..=40, array lengths 0..=5, marker field values; constructor preconditions respected: module end > start, EFI stride != 0, custom type > 21); enumerated: empty, all singletons, all ordered pairs, triples (a third of them in quick, all in thorough), the full set in both orders. Model: single-valued slot -> last call, repeatable slots (module, SMBIOS, custom) -> all calls in order. Oracle: 8-aligned, loads, total size == byte length == header word, final 8 bytes are the end tag, reference walk minus the end tag == supplied tag images (bytes[..size] captured before the tag is moved in) as a multiset, call order inside each repeatable kind. Non-trivial = an overridden single-valued call, >=2 repeatable tags, or a tag size not a multiple of 8; distinct by call list",
